@@ -11,14 +11,20 @@ open FV FV.Sk FV.Gen.Codec
 /-- what the model says an encoder returns when asked to append to `pre` -/
 def appended (pre : Bytes) (enc : Option Bytes) : ERes := ERes.ofOption (enc.map (pre ++ ·))
 
+theorem key_ack : appendString kAck = [163, 97, 99, 107] := by decide
+theorem key_nonce : appendString kNonce = [165, 110, 111, 110, 99, 101] := by decide
+theorem key_auth : appendString kAuth = [164, 97, 117, 116, 104] := by decide
+theorem key_keepalive : appendString kKeepalive = [169, 107, 101, 101, 112, 97, 108, 105, 118, 101] := by decide
 theorem hdr2 : appendArrayHeader 2 = [146] := by decide
 theorem hdr3 : appendArrayHeader 3 = [147] := by decide
 
 macro "sk_unfold" : tactic => `(tactic|
-  simp only [runEnc, eexecs, eexec, MessageSrc.get, MessageExtSrc.get, ForwardSrc.get, PackedSrc.get, Option.bind, encPrim])
+  simp only [runEnc, eexecs, eexec, MessageSrc.get, MessageExtSrc.get, ForwardSrc.get, PackedSrc.get, EntrySrc.get, EntryExtSrc.get,
+    PingSrc.get, PongSrc.get, AckSrc.get, HeloOptsSrc.get, HeloSrc.get, Option.bind, Option.map, encPrim, isNilPtr, Option.isNone])
 macro "sk_fin" : tactic => `(tactic|
   simp_all [appended, ERes.ofOption, marshalOptPtr, appendNil, List.append_assoc, Message.marshal, MessageExt.marshal,
-    Forward.marshal, Packed.marshal, hdr2, hdr3])
+    Forward.marshal, Packed.marshal, Entry.marshal, EntryExt.marshal, Ping.marshal, Pong.marshal, Ack.marshal, HeloOpts.marshal,
+    Helo.marshal, hdr2, hdr3, key_ack, key_nonce, key_auth, key_keepalive])
 
 theorem Message_MarshalMsg_is_model (m : MessageSrc) (pre : Bytes) :
     runEnc MessageSrc.get Message_MarshalMsg m pre = appended pre (Message.marshal m.tag m.ts m.record m.options) := by
@@ -68,11 +74,56 @@ theorem Packed_EncodeMsg_is_model (m : Packed) (pre : Bytes) :
   simp only [Packed_EncodeMsg]; sk_unfold
   cases opts <;> sk_fin
 
+/-! ### msgp-generated encoders of the entry and handshake types -/
+
+theorem Entry_MarshalMsg_is_model (m : EntrySrc) (pre : Bytes) :
+    runEnc EntrySrc.get Entry_MarshalMsg m pre = appended pre (Entry.marshal m.ts m.record) := by
+  rcases m with ⟨ts, rec⟩; simp only [Entry_MarshalMsg]; sk_unfold; cases hh : GoVal.encode rec <;> sk_fin
+theorem Entry_EncodeMsg_is_model (m : EntrySrc) (pre : Bytes) :
+    runEnc EntrySrc.get Entry_EncodeMsg m pre = appended pre (Entry.marshal m.ts m.record) := by
+  rcases m with ⟨ts, rec⟩; simp only [Entry_EncodeMsg]; sk_unfold; cases hh : GoVal.encode rec <;> sk_fin
+theorem EntryExt_MarshalMsg_is_model (m : EntryExtSrc) (pre : Bytes) :
+    runEnc EntryExtSrc.get EntryExt_MarshalMsg m pre = appended pre (EntryExt.marshal m.ts m.record) := by
+  rcases m with ⟨ts, rec⟩; simp only [EntryExt_MarshalMsg]; sk_unfold; cases hh : GoVal.encode rec <;> sk_fin
+theorem EntryExt_EncodeMsg_is_model (m : EntryExtSrc) (pre : Bytes) :
+    runEnc EntryExtSrc.get EntryExt_EncodeMsg m pre = appended pre (EntryExt.marshal m.ts m.record) := by
+  rcases m with ⟨ts, rec⟩; simp only [EntryExt_EncodeMsg]; sk_unfold; cases hh : GoVal.encode rec <;> sk_fin
+theorem Ping_MarshalMsg_is_model (m : Ping) (pre : Bytes) :
+    runEnc PingSrc.get Ping_MarshalMsg m pre = appended pre (some m.marshal) := by
+  simp only [Ping_MarshalMsg]; sk_unfold; sk_fin
+theorem Ping_EncodeMsg_is_model (m : Ping) (pre : Bytes) :
+    runEnc PingSrc.get Ping_EncodeMsg m pre = appended pre (some m.marshal) := by
+  simp only [Ping_EncodeMsg]; sk_unfold; sk_fin
+theorem Pong_MarshalMsg_is_model (m : Pong) (pre : Bytes) :
+    runEnc PongSrc.get Pong_MarshalMsg m pre = appended pre (some m.marshal) := by
+  simp only [Pong_MarshalMsg]; sk_unfold; sk_fin
+theorem Pong_EncodeMsg_is_model (m : Pong) (pre : Bytes) :
+    runEnc PongSrc.get Pong_EncodeMsg m pre = appended pre (some m.marshal) := by
+  simp only [Pong_EncodeMsg]; sk_unfold; sk_fin
+theorem Ack_MarshalMsg_is_model (m : Ack) (pre : Bytes) :
+    runEnc AckSrc.get Ack_MarshalMsg m pre = appended pre (some m.marshal) := by
+  simp only [Ack_MarshalMsg]; sk_unfold; sk_fin
+theorem Ack_EncodeMsg_is_model (m : Ack) (pre : Bytes) :
+    runEnc AckSrc.get Ack_EncodeMsg m pre = appended pre (some m.marshal) := by
+  simp only [Ack_EncodeMsg]; sk_unfold; sk_fin
+theorem HeloOpts_MarshalMsg_is_model (m : HeloOpts) (pre : Bytes) :
+    runEnc HeloOptsSrc.get HeloOpts_MarshalMsg m pre = appended pre (some m.marshal) := by
+  simp only [HeloOpts_MarshalMsg]; sk_unfold; sk_fin
+theorem HeloOpts_EncodeMsg_is_model (m : HeloOpts) (pre : Bytes) :
+    runEnc HeloOptsSrc.get HeloOpts_EncodeMsg m pre = appended pre (some m.marshal) := by
+  simp only [HeloOpts_EncodeMsg]; sk_unfold; sk_fin
+theorem Helo_MarshalMsg_is_model (m : Helo) (pre : Bytes) :
+    runEnc HeloSrc.get Helo_MarshalMsg m pre = appended pre (some m.marshal) := by
+  rcases m with ⟨mt, opts⟩; simp only [Helo_MarshalMsg]; cases opts <;> sk_unfold <;> sk_fin
+theorem Helo_EncodeMsg_is_model (m : Helo) (pre : Bytes) :
+    runEnc HeloSrc.get Helo_EncodeMsg m pre = appended pre (some m.marshal) := by
+  rcases m with ⟨mt, opts⟩; simp only [Helo_EncodeMsg]; cases opts <;> sk_unfold <;> sk_fin
+
 /-- not vacuous: an unknown statement, a nil options pointer handed to its encoder and a missing return are panics -/
 example : runEnc MessageSrc.get [.unknown "x"] ⟨[], 0, .nil, none⟩ [] = .panic "statement not understood by the translator: x" := rfl
 example : runEnc MessageSrc.get [.put .options .Options .checked, .ret] ⟨[], 0, .nil, none⟩ []
     = .panic "nil pointer dereference, or a field of another type" := rfl
-example : runEnc MessageSrc.get [.raw 148] ⟨[], 0, .nil, none⟩ [] = .panic "missing return" := rfl
+example : runEnc MessageSrc.get [.raw [148]] ⟨[], 0, .nil, none⟩ [] = .panic "missing return" := rfl
 /-- the Go variable `err` is state: an unchecked failing call is reported by the final return -/
 example : runEnc ForwardSrc.get [.put .entryList .Entries .unchecked, .ret] ⟨[], [({ sec := 0, nsec := 0 }, .bad)], none⟩ [] = .err := by
   decide
